@@ -354,6 +354,15 @@ class CFG:
             return False
         return self.feasible_reach(None, cut_pred, lambda a: True, accept=accept, start=start)
 
+    def every_round_passes(self, hb, sb):
+        """does every way round the loop with header hb (from the header back to it, inside the loop) pass block sb?"""
+        body = self.natural_loop(hb)
+        if sb not in body:
+            return False
+        outside = [b for b in self.blocks if b not in body]
+        entries = [s2 for (b, i, s2) in self.edges() if b == hb and s2 in body and s2 != hb]
+        return bool(entries) and all(be == sb or hb not in self.reachable(be, avoid_blocks=[sb] + outside) for be in entries)
+
     def returned_values_from(self, start, init_facts=None):
         """Values returned on the consistent paths that start in block `start` (its own assignments included):
         integers (enumerators by value), None for a value that is not a known constant."""
